@@ -26,6 +26,18 @@ ASSIGN_OPS = ["=", "*=", "/=", "%=", "+=", "-=", "<<=", ">>=", "&=", "^=", "|="]
 PREFIX_OPS = ["&", "*", "+", "-", "~", "!", "++", "--", "sizeof"]
 
 
+OWN_PAREN_SLOTS = {"Alignas.alignment", "StaticAssert.cond"}
+# slots whose construct writes its own delimiting parentheses directly around the child (`if ( e )`, `sizeof( e )` is NOT one of
+# them: the parser reads that parenthesis as the primary-expression parenthesis)
+DELIMITED_SLOTS = OWN_PAREN_SLOTS | {"If.cond", "While.cond", "DoWhile.cond", "Switch.cond"}
+# GNU statement expression `({ ... })`: the parser accepts `(` `{` at the START OF AN ASSIGNMENT-EXPRESSION only
+# (CParser._parse_assignment_expression), and returns the Compound itself.  So a Compound child needs one pair of parentheses
+# of its own in a slot parsed at assignment/comma level, one more where the slot is parsed at a tighter level (the extra pair is
+# read as a primary-expression parenthesis whose inside is an expression again), and one more where the construct's own
+# delimiters stand next to the child.
+STMT_EXPR = "StmtExpr"
+
+
 def catalogue(A):
     """One representative node per (class, operator) with its syntactic level."""
     a, b, c = A.ID("a"), A.ID("b"), A.ID("c")
@@ -36,7 +48,8 @@ def catalogue(A):
            ("FuncCall0", A.FuncCall(a, None), POSTFIX), ("p++", A.UnaryOp("p++", a), POSTFIX), ("p--", A.UnaryOp("p--", a), POSTFIX),
            ("CompoundLiteral", A.CompoundLiteral(tn, A.InitList([A.Constant("int", "1")])), POSTFIX),
            ("sizeof-type", A.UnaryOp("sizeof", tn), UNARY), ("Cast", A.Cast(tn, a), CAST),
-           ("TernaryOp", A.TernaryOp(a, b, c), COND), ("ExprList", A.ExprList([a, b]), COMMA)]
+           ("TernaryOp", A.TernaryOp(a, b, c), COND), ("ExprList", A.ExprList([a, b]), COMMA),
+           (STMT_EXPR, A.Compound([A.Constant("int", "1")]), -1)]
     for op in PREFIX_OPS:
         out.append((f"UnaryOp{op}", A.UnaryOp(op, a), UNARY))
     for op, lv in BIN.items():
@@ -87,6 +100,17 @@ def slots(A):
     out.append(("NamedInitializer.expr", lambda ch: A.NamedInitializer([A.ID("m")], ch), "expr", ASSIGN))
     out.append(("StaticAssert.cond", lambda ch: A.StaticAssert(ch, None), "cond", COND))
     out.append(("sizeof.expr", lambda ch: A.UnaryOp("sizeof", ch), "expr", UNARY))
+    # full-expression slots of statements (parsed at comma level: no child of the catalogue needs parentheses there, except the
+    # statement expression)
+    e = A.EmptyStatement
+    out.append(("Return.expr", lambda ch: A.Return(ch), "expr", COMMA))
+    out.append(("If.cond", lambda ch: A.If(ch, e(), None), "cond", COMMA))
+    out.append(("While.cond", lambda ch: A.While(ch, e()), "cond", COMMA))
+    out.append(("DoWhile.cond", lambda ch: A.DoWhile(ch, e()), "cond", COMMA))
+    out.append(("Switch.cond", lambda ch: A.Switch(ch, A.Compound([])), "cond", COMMA))
+    out.append(("For.init", lambda ch: A.For(ch, x, y, e()), "init", COMMA))
+    out.append(("For.cond", lambda ch: A.For(x, ch, y, e()), "cond", COMMA))
+    out.append(("For.next", lambda ch: A.For(x, y, ch, e()), "next", COMMA))
     return out
 
 
@@ -138,7 +162,19 @@ def parenthesisation_contract() -> core.Result:
                     bad.append(f"{cname} flag={flag}: the child is not emitted at all: {text!r}")
                     continue
                 i = text.index(MARK)
+                if cname == STMT_EXPR:
+                    before, after = text[:i].replace(" ", ""), text[i + len(MARK):].replace(" ", "")
+                    pairs = min(len(before) - len(before.rstrip("(")), len(after) - len(after.lstrip(")")))
+                    want = (1 if need <= ASSIGN else 2) + (1 if sname in DELIMITED_SLOTS else 0)
+                    if pairs < want:
+                        bad.append(f"a statement expression child is printed inside {pairs} pair(s) of parentheses where {want} are needed "
+                                   f"(the parser takes `(` `{{` for a statement expression only at the start of an assignment-expression): {text!r}")
+                    continue
                 wrapped = text[:i].rstrip().endswith("(") and text[i + len(MARK):].lstrip().startswith(")")
+                if sname in OWN_PAREN_SLOTS:
+                    # `_Alignas( constant-expression )`, `_Static_assert( constant-expression , ...)`: the parentheses next to
+                    # the child are the construct's own delimiters, not grouping parentheses
+                    wrapped = text[:i].rstrip().endswith("((") and text[i + len(MARK):].lstrip().startswith(")")
                 # a function-call / subscript bracket directly around the marker is a delimiter of its own
                 if sname in ("ArrayRef.subscript",):
                     wrapped = wrapped or True
@@ -185,6 +221,8 @@ srcs += ['((%s) %s (%s)) %s (%s)' % ('a', o1, 'b', o2, 'c') for o1 in ops for o2
 srcs += ['(%s) %s ((%s) %s (%s))' % ('a', o1, 'b', o2, 'c') for o1 in ops for o2 in ops]
 srcs += ['(%s) = (%s)' % (x, y) for x in atoms for y in atoms] + ['-(%s)' % x for x in atoms] + ['(%s)[(%s)]' % (x, y) for x in atoms for y in atoms]
 srcs += ['(%s) ? (%s) : (%s)' % (x, y, z) for x in atoms[:5] for y in atoms[:5] for z in atoms[:5]]
+srcs += ['return ({1;})', 'if (({1;})) x = 1', 'x = a[({1;})]', 'x = sizeof (({1;}))', '(({1;})) = 1', 'while (({1;})) x = 1', 'do x = 1; while (({1;}))',
+         'for (({1;}); ({1;}); ({1;})) x = 1', 'switch (({1;})) { case (({1;})): x = 1; }', 'x = 1 + (({1;}))', 'x = (({1;})) ? 1 : 2', 'x = (int)(({1;}))']
 for e in srcs:
     src = 'void f(void) { %s; }' % e
     try:
@@ -332,6 +370,14 @@ def sweep_sources(tier):
              "void (*signal(int, void (*)(int)))(int);", "int x = sizeof(struct S { int a; });", "_Pragma(\"foo\")", "#pragma bar\nint x;",
              "int a[static 3], b[const *], c[restrict static 2];" if False else "void g(int a[static 3], int b[const *], int c[restrict 2]);",
              "_Static_assert(sizeof(int) == 4, \"x\");", "int x = _Alignof(int);", "typedef struct S T2; T2 *p;",
+             "_Alignas((1, 2)) int ac;", "_Static_assert((1, 2), \"m\");", "const struct S;", "volatile enum E2 { A2 };", "struct P { const struct Q; int m; };", "struct R { const int; volatile unsigned; int m; };",
+             # consequence of the open C04 finding (a name's scope begins only after the whole init-declarator-list): the generator prints
+             # one declaration per declarator, after which `(T)` is no longer a cast
+             "typedef int T; void SCOPE_TIMING(void) { int T = 1, y = (T)+1; }",
+             "_Atomic(int *) (*pa)[3];", "_Atomic(int *) (*fpa)(void);", "struct SA { _Atomic(int *) (*m)[2]; };", "int xa = sizeof(_Atomic(int *) (*)[3]);",
+             "void fa(_Atomic(int *) (*)(void));", "_Atomic(int *) (aa), *(ba);",
+             "_Atomic(int) const x1;", "const _Atomic(int *) c1;", "_Atomic(int) a1, *b1;", "_Atomic(int) *p1, q1;", "void f1(_Atomic(int) *);",
+             "int z1 = sizeof(_Atomic(int));", "int y1 = (_Atomic(int *))0 == 0;", "typedef _Atomic(int) AI, *PAI;", "_Atomic(int[3]) arr1, brr1;",
              "struct S { int a; } a, b;", "typedef struct T { int x; } T1, *T2;", "enum E { A, B } e1, e2;", "union U { int a; } u1, *u2, u3[2];",
              "void f(int a[const], char *argv[restrict], int b[static const 2], int c[volatile *], int d[const restrict]);",
              "int f(int a[], int b[3][4], int (*c)[5]);", "struct S { struct S *next; } *head, nodes[3];"]
@@ -382,7 +428,7 @@ def sweep(tier) -> core.Result:
     groups = {}
     for src, flag, why in bad:
         key = "alignas" if "_Alignas(4) _Alignas(8)" in src else "decllist" if "for (int i = 0, *p" in src else \
-            "pragma-operator" if "_Pragma" in src else "other"
+            "pragma-operator" if "_Pragma" in src else "scope-timing" if "SCOPE_TIMING" in src else "other"
         groups.setdefault(key, []).append((src, flag, why))
     rep_t = ("from pycparser import c_parser, c_generator\nSRC = %r\nFLAG = %r\n"
              "def strip(n):\n"
@@ -396,7 +442,7 @@ def sweep(tier) -> core.Result:
              "    ok = strip(t1) == strip(t2) and c_generator.CGenerator(reduce_parentheses=FLAG).visit(t2) == text\n"
              "except Exception as e:\n    print(type(e).__name__, e); ok = False\n"
              "print('NOT-REPRODUCED' if ok else 'REPRODUCED')\n")
-    for key in ("alignas", "decllist", "pragma-operator", "other"):
+    for key in ("alignas", "decllist", "pragma-operator", "scope-timing", "other"):
         g = groups.get(key, [])
         name = f"C07/sweep/roundtrip/{key}"
         if g:
@@ -422,5 +468,9 @@ def run(tier, seed):
     for o in fx.obs:
         o.name = "C07/" + o.name[4:]
     res.add(fx)
+    # FX is a may-analysis: what it cannot discharge about generator state is a violation only if a re-used generator really
+    # behaves differently from a fresh one (tools/dynmon.py history)
+    from props import dynconfirm
+    dynconfirm.apply(res, "C07", "history", also_undecided=True)
     res.add(sweep(tier))
     return res
